@@ -4,6 +4,7 @@
 #define _GNU_SOURCE
 #include "sim.h"
 #include <errno.h>
+#include <execinfo.h>
 #include <stdlib.h>
 
 #if defined(__SANITIZE_ADDRESS__)
@@ -19,6 +20,7 @@ typedef struct {
   int op;
   const void *site;
   int live;
+  void *bt[HEAP_BT_DEPTH]; /* call chain of the request (only when heap_bt_on) */
 } blk_t;
 
 /* open addressing table pointer -> index in recs (only live blocks are in the table) */
@@ -33,6 +35,7 @@ void (*heap_on_alloc)(void *, size_t);
 void (*heap_on_free)(void *, size_t);
 void (*heap_on_call)(void);
 
+int heap_bt_on;
 static rng_t hrng;
 static int cfg_fill = -1; /* -1: untouched content */
 static int cfg_recycle = RECYCLE_OFF;
@@ -136,6 +139,13 @@ heap_viol_t heap_take_violation(void) { heap_viol_t v = pending_viol; pending_vi
 int heap_is_live(const void *p) { return tab_find(p, NULL) >= 0; }
 size_t heap_block_size(const void *p) { int64_t i = tab_find(p, NULL); return i < 0 ? 0 : recs[i].size; }
 int heap_block_id(const void *p) { int64_t i = tab_find(p, NULL); return i < 0 ? 0 : (int)recs[i].id; }
+int heap_block_bt(const void *p, void **out, int n) {
+  int64_t i = tab_find(p, NULL);
+  if (i < 0) return 0;
+  int k = 0;
+  while (k < n && k < HEAP_BT_DEPTH && recs[i].bt[k]) { out[k] = recs[i].bt[k]; k++; }
+  return k;
+}
 const void *heap_block_site(const void *p) { int64_t i = tab_find(p, NULL); return i < 0 ? NULL : recs[i].site; }
 void heap_iter_live(heap_iter_cb cb, void *ud) {
   for (size_t s = 0; s < tabcap; s++)
@@ -203,6 +213,11 @@ static void *sim_alloc(size_t size, size_t align, int zero, const void *site) {
   if (nrecs == caprecs) { caprecs = caprecs ? caprecs * 2 : 4096; recs = (blk_t *)realloc(recs, caprecs * sizeof(blk_t)); }
   blk_t *b = &recs[nrecs];
   b->p = p; b->size = size; b->align = align; b->id = next_id++; b->op = cur_op; b->site = site; b->live = 1;
+  if (heap_bt_on) {
+    void *tmp[HEAP_BT_DEPTH + 3];
+    int nb = backtrace(tmp, HEAP_BT_DEPTH + 3);
+    for (int i = 0; i < HEAP_BT_DEPTH; i++) b->bt[i] = i + 3 < nb ? tmp[i + 3] : NULL; /* skip backtrace/sim_alloc/m4sim_* */
+  } else b->bt[0] = NULL;
   tab_insert(p, (int64_t)nrecs);
   nrecs++;
   live_n++; live_bytes += size; live_digest ^= sm64_mix(b->id);
